@@ -7,6 +7,19 @@ HERE = os.path.dirname(os.path.dirname(os.path.abspath(__file__)))
 
 # id -> (category, technique, text, note, design_ref)
 CHECKS = {
+    "C17": (
+        "exploration",
+        "bounded exhaustive enumeration of (pre-adapter modification set, adapter set, times, revcomp, filter) through cli.main; every info-file row re-checked, matched stretch re-aligned by the C reference",
+        "11 sets of pre-adapter modifications (subsets of -u 3, -u -2, -q 10,10, -q 10, --nextseq-trim 10) x 9 adapter sets (3', 5', "
+        "anywhere, anchored, N wildcard, two linked adapters, mixed lists) x --times {1,2,3} x --revcomp on/off x filters that discard "
+        "reads, on ~120 reads with position-unique qualities (incl. reads where a later round matches inside a linked adapter's "
+        "remainder). Per row: >= 1 row per input read (also discarded ones); -1 rows unique; fields 5-7 / 9-11 concatenate to the input "
+        "read (reverse-complemented if flagged) for the first row and to what the previous round left for later rows; fields split "
+        "exactly at the reported coordinates; field 6 has, against some interval of the named adapter, exactly the reported edit "
+        "distance within the tolerance (C reference).",
+        "Which adapter wins a round is C09's business; the 5'/3' side of a row is derived from the adapter's documented type.",
+        "DESIGN.md section 3, C17",
+    ),
     "C03": (
         "exploration",
         "bounded exhaustive enumeration of reads with position-unique qualities through every modifier class and through cli.main option subsets; slice identification + differential against --action=trim",
